@@ -46,6 +46,23 @@ def Pc.published (t : Task) : Pc → Bool
   | .inCall .sub t' => t' = t
   | _ => false
 
+/-- (added for inductiveness) shape of a program counter: a SUB-only pc holds a SUB, a USB-only pc holds a
+    USB, a `put` that returns to the loop head is the reply of a SUB, and the continuation of a `put`
+    (`clearCode` / `callBegin .sub`) is for the task that is being held. -/
+def Pc.wf : Pc → Bool
+  | .put t _ .atLoop => t.isSub
+  | .put t _ (.clearCode t') => !t.isSub && decide (t' = t)
+  | .put t _ (.callBegin .sub t') => t.isSub && decide (t' = t)
+  | .put _ _ _ => false
+  | .setCode t => t.isSub
+  | .callBegin .usb t => !t.isSub
+  | .callBegin _ t => t.isSub
+  | .inCall .usb t => !t.isSub
+  | .inCall _ t => t.isSub
+  | .eosRead t => t.isSub
+  | .clearCode t => !t.isSub
+  | _ => true
+
 def sumUpto (f : Nat → Nat) : Nat → Nat
   | 0 => 0
   | n + 1 => sumUpto f n + f n
@@ -170,6 +187,19 @@ structure Inv (s : IState) : Prop where
   replOnly : ∀ r, r ∈ s.repl → hasId s.fin r ∨
       (∃ k t, cur s = some k ∧ (s.insts k).pc = .clearCode t ∧ t.id = r)
   lostNone : s.lost = []
+  -- clauses ADDED to make the invariant inductive (InvProof); each is mirrored in `invFail`
+  /-- every program counter is well-shaped (`Pc.wf`): needed e.g. at `put … atLoop` (the finished task is a
+      SUB, so `codeAfterUsb` is vacuous), at `put … (clearCode t')` (`t' = t`, for `seq`), at `clearCode t`
+      (`t` is a USB, for `outBetween`/`codeExec`), at `setCode t` (`execdArr` wants a SUB). -/
+  pcWf : ∀ k, k < s.ninst → (s.insts k).pc.wf = true
+  /-- a published id belongs to a task that has been popped (finished or held), never to one that is still
+      queued: needed for `execdArr` when a queued SUB is skipped and becomes `late`. -/
+  execdHeld : ∀ r, r ∈ s.execd → hasId s.fin r ∨ hasId (heldL s) r
+  /-- the last ended subscribe/unsubscribe invocation was not for a skipped (late) task: needed for `codeUsb`
+      at the pop of a USB (outcome true ⇒ the preceding SUB was executed, so its id is published). -/
+  lastInvNotLate : ∀ m r b, s.lastInv = some (m, r, b) → ∀ p, p ∈ s.late → p.id ≠ r
+  /-- at `clearCode t` the reply of `t` has been enqueued: needed for `replFin` when `t` finishes. -/
+  replClear : ∀ k, cur s = some k → ∀ t, (s.insts k).pc = .clearCode t → t.id ∈ s.repl
 
 /-- states reachable from the initial state of an item by any sequence of actions (any schedule of
     reader, pool tasks and listener-calling threads, any adapter outcomes). -/
